@@ -6,7 +6,6 @@ Import ListNotations.
 
 Section SrcMesh.
 Context {A : Arith} {X : Type}.
-Variables (half quarter snap : T A).
 
 (* src/mesh1d.rs : impl < T : Clone + Number , X : Clone + Number + Copy > Mesh1D < T , X > :: fn new *)
 Definition s_mesh1_new (nodes_ : (list X)) (nvars_ : nat) : res (mesh1 A X) :=
@@ -54,7 +53,7 @@ Definition s_mesh1_index (self_ : (mesh1 A X)) (node_ : nat) : res (list (T A)) 
   rd (m1_vars self_) node_.
 
 (* src/mesh1d.rs : impl Mesh1D < f64 , f64 > :: fn get_interpolated_vars *)
-Definition s_mesh1_interp (self_ : (mesh1 A (T A))) (x_pos_ : (T A)) : res (list (T A)) :=
+Definition s_mesh1_interp (half : (T A)) (quarter : (T A)) (snap : (T A)) (self_ : (mesh1 A (T A))) (x_pos_ : (T A)) : res (list (T A)) :=
   let result_ := (repeat (@zero A) (m1_nvars self_)) in
   let* d1 := usub (length (m1_nodes self_)) 1 in
   for_ 0 d1 (fun node_ (result_ : (list (T A))) =>
@@ -84,7 +83,7 @@ Definition s_mesh1_interp (self_ : (mesh1 A (T A))) (x_pos_ : (T A)) : res (list
       else (Ok result_)) result_.
 
 (* src/mesh1d.rs : impl Mesh1D < f64 , f64 > :: fn trapezium *)
-Definition s_mesh1_trapezium (self_ : (mesh1 A (T A))) (var_ : nat) : res (T A) :=
+Definition s_mesh1_trapezium (half : (T A)) (quarter : (T A)) (snap : (T A)) (self_ : (mesh1 A (T A))) (var_ : nat) : res (T A) :=
   let sum_ := (@zero A) in
   let* d1 := usub (length (m1_nodes self_)) 1 in
   for_ 0 d1 (fun node_ (sum_ : (T A)) =>
@@ -208,7 +207,7 @@ Definition s_mesh2_apply (self_ : (mesh2 A (T A))) (func_ : ((T A) -> (T A) -> r
           Ok self_) self_) self_.
 
 (* src/mesh2d.rs : impl Mesh2D < f64 > :: fn trapezium *)
-Definition s_mesh2_trapezium (self_ : (mesh2 A (T A))) (var_ : nat) : res (T A) :=
+Definition s_mesh2_trapezium (half : (T A)) (quarter : (T A)) (snap : (T A)) (self_ : (mesh2 A (T A))) (var_ : nat) : res (T A) :=
   let sum_ := (@zero A) in
   let* d1 := usub (m2_nx self_) 1 in
   for_ 0 d1 (fun i_ (sum_ : (T A)) =>
@@ -232,7 +231,7 @@ Definition s_mesh2_trapezium (self_ : (mesh2 A (T A))) (var_ : nat) : res (T A) 
           Ok sum_) sum_) sum_.
 
 (* src/mesh2d.rs : impl Mesh2D < f64 > :: fn square_trapezium *)
-Definition s_mesh2_square_trapezium (self_ : (mesh2 A (T A))) (var_ : nat) : res (T A) :=
+Definition s_mesh2_square_trapezium (half : (T A)) (quarter : (T A)) (snap : (T A)) (self_ : (mesh2 A (T A))) (var_ : nat) : res (T A) :=
   let sum_ := (@zero A) in
   let* d1 := usub (m2_nx self_) 1 in
   for_ 0 d1 (fun i_ (sum_ : (T A)) =>
